@@ -2790,7 +2790,10 @@ class Binop(Elemwise):
             if not changed:
                 return
 
-            return type(parent)(type(self)(left, right), *parent.operands[1:])
+            # Subclasses carry more operands than left and right (e.g. the
+            # name and axis of MethodOperator), those have to be kept
+            result = self.substitute_parameters({"left": left, "right": right})
+            return type(parent)(result, *parent.operands[1:])
 
     def _node_label_args(self):
         return [self.left, self.right]
